@@ -40,6 +40,8 @@ type C19Case struct {
 	JSONLog    bool     `json:"json_log"`
 	// ProxyPlain: --proxy is given without userinfo; the upstream's password then comes from --credentials (second entry).
 	ProxyPlain bool `json:"proxy_plain,omitempty"`
+	// UserHoldsPass: the user name of the first --credentials entry is, or contains, its password ("admin:admin@...")
+	UserHoldsPass string `json:"user_holds_pass,omitempty"` // "" | equal | contains
 	// APIMode: the API server logs its requests in another mode than the proxy (--log-http=proxy:<m>,api:<m>)
 	APIMode string `json:"api_mode,omitempty"`
 	// OneCPU: the binary runs with GOMAXPROCS=1 (a one-CPU container): whatever the runtime shares between goroutines
@@ -92,6 +94,10 @@ func genC19(t *rapid.T) C19Case {
 	nc := rapid.IntRange(0, 3).Draw(t, "ncreds")
 	for i := 0; i < nc; i++ {
 		c.CredPasses = append(c.CredPasses, genSecret(t, fmt.Sprintf("cr%d", i), ",\"")) // list items are parsed as CSV: no ',' and no '"'
+	}
+	if nc > 0 && rapid.IntRange(0, 3).Draw(t, "userholdspass") == 0 {
+		c.UserHoldsPass = rapid.SampledFrom([]string{"equal", "contains"}).Draw(t, "userholdspasskind")
+		c.CredPasses[0] = "S3ccr0" + rapid.StringMatching(`[a-zA-Z0-9]{6}`).Draw(t, "plainpass") // a password that can be part of a user name
 	}
 	for _, k := range []string{"tls", "mitm", "cacert"} {
 		if rapid.IntRange(0, 3).Draw(t, "key"+k) == 0 {
@@ -303,6 +309,14 @@ func runC19(c C19Case) (fails []vstat.Failure) {
 	for i, p := range c.CredPasses {
 		hp := []string{e.origin.Addr, e.upstream.Host + ":*", "*:*"}[i]
 		user := fmt.Sprintf("cruser%d", i)
+		if i == 0 {
+			switch c.UserHoldsPass {
+			case "equal":
+				user = p
+			case "contains":
+				user = "svc-" + p
+			}
+		}
 		creds = append(creds, user+":"+p+"@"+hp)
 		secrets = append(secrets, secretSpec{"credentials", user, p, false})
 	}
@@ -552,8 +566,8 @@ func runC19(c C19Case) (fails []vstat.Failure) {
 			if auth && m.Status == 200 {
 				// the non-secret parts stay visible
 				for _, s := range secrets {
-					if s.user != "" && !strings.Contains(string(m.Body), s.user) {
-						fails = append(fails, vstat.Failf("C19:over-redacted", "/configz does not show the user name %q of --%s", s.user, s.flag))
+					if s.user != "" && !strings.Contains(string(m.Body), s.user+":") {
+						fails = append(fails, vstat.Failf("C19:over-redacted", "/configz does not show the user name %q of --%s in its place (\"%s:<placeholder>\")", s.user, s.flag, s.user))
 					}
 				}
 			}
@@ -671,6 +685,14 @@ func redactArgs(a []string) string { return fmt.Sprintf("%d arguments", len(a)) 
 // scanSecrets looks for every secret literally, percent-encoded and base64-encoded.
 func scanSecrets(keyPrefix, where, text string, secrets []secretSpec) (fails []vstat.Failure) {
 	for _, s := range secrets {
+		text := text
+		if s.user != "" && s.secret != "" && strings.Contains(s.user, s.secret) {
+			// the user name itself holds the password text: it stays visible by design; what is looked for is the
+			// password anywhere else - in particular right behind "<user>:"
+			text = strings.ReplaceAll(text, s.user+":"+s.secret, s.user+":<<PASSWORD-IN-THE-CLEAR>>")
+			text = strings.ReplaceAll(text, s.user, "<user>")
+			text = strings.ReplaceAll(text, "<<PASSWORD-IN-THE-CLEAR>>", s.secret)
+		}
 		forms := map[string]string{}
 		if s.pem {
 			body := strings.Join(strings.Split(strings.TrimSpace(s.secret), "\n")[1:3], "")
@@ -735,6 +757,9 @@ func classifyC19(c C19Case) (bool, string, []string) {
 	}
 	if c.APIMode != "" {
 		cls = append(cls, "api-log-mode-differs")
+	}
+	if c.UserHoldsPass != "" {
+		cls = append(cls, "user-name-holds-the-password")
 	}
 	if c.OneCPU {
 		cls = append(cls, "one-cpu")
